@@ -15,6 +15,10 @@ Key(vv, ee) == <<[v \in Vecs |-> KeyVec(vv[v])], [x \in Elems |-> KeyEl(ee[x])]>
 
 EmitEdge == PrintT(<<"EDGE", ToJson([s |-> Key(vec, el), a |-> act', t |-> Key(vec', el')])>>)
 
+(* Simulation mode (tlc -simulate): deep random behaviours of a model whose exhaustive exploration is out of reach; *)
+(* every step is printed with the number of the behaviour and its depth.                                          *)
+EmitSim == PrintT(<<"SIM", TLCGet("stats").traces, TLCGet("level"), ToJson(act')>>)
+
 (* known-finding cuts: histories are cut BEFORE a step after which the real *)
 (* object's state is undefined (see DESIGN.md section 6); CutSteps is the  *)
 (* set of active triggers, instantiated by the generated MC module.        *)
